@@ -186,7 +186,7 @@ def case_strategy():
             if use_kw:
                 for k in draw(st.permutations(kwpool)):  # declaration order differs between methods
                     if draw(st.integers(0, 2)) != 2:
-                        kw.append({"name": k, "ann": ["cls", draw(cls)], "opt": draw(st.integers(0, 3)) == 0})
+                        kw.append({"name": k, "ann": ["cls", draw(cls)], "opt": draw(st.booleans())})
             methods.append(
                 {"id": i, "pos": pos, "kw": kw, "prio": draw(st.sampled_from([0, 0, 0, 1, -1, 2]))}
             )
